@@ -3,7 +3,9 @@
 package c05
 
 import (
+	"encoding/json"
 	"fmt"
+	"strings"
 
 	"verif/props/proto"
 	"verif/simnet"
@@ -111,7 +113,75 @@ var F = &proto.Family{ID: "C05", Gen: gen, Check: check, OutcomeKey: func(r *pro
 	return 1
 }}
 
+// ---- the end-to-end probe: its RTT is the destination hop's RTT, 0 = the destination did not answer -----------
+
+func genE2e(tier string) []proto.RTItem {
+	var items []proto.RTItem
+	for _, pr := range []struct{ p, m, h string }{{"icmp", "", "203.0.113.77"}, {"tcp", "syn", "203.0.113.77"}, {"udp", "", "203.0.113.77"}, {"icmp", "", "2001:db8::77"}, {"udp", "", "2001:db8::77"}} {
+		for _, world := range []string{"destination-answers", "time-exceeded-from-the-target-address", "silence"} {
+			r := proto.RTScn{Hostname: pr.h, Protocol: pr.p, Method: pr.m, MinTTL: 1, MaxTTL: 4, DelayMs: 10, TimeoutMs: 100, Queries: 1, E2e: 2, Dest: 3, IPIDBase: 500, EchoBase: 41, WantV6: strings.Contains(pr.h, ":")}
+			te := "te28"
+			if r.WantV6 {
+				te = "teFull"
+			}
+			switch world {
+			case "time-exceeded-from-the-target-address":
+				r.Hops = map[int]proto.HopSpec{4: {Form: te, AtTarget: true}}
+			case "silence":
+				r.Hops = map[int]proto.HopSpec{4: {Silent: true}}
+			}
+			fam := ""
+			if r.WantV6 {
+				fam = "6"
+			}
+			items = append(items, proto.RTItem{Scn: r, Class: fmt.Sprintf("e2e-probe/%s%s-%s/%s", pr.p, fam, pr.m, world), Note: map[string]string{"world": world}})
+		}
+	}
+	return items
+}
+
+var E2E = &proto.RTFamily{ID: "C05", Gen: genE2e, Check: func(it *proto.RTItem, r *proto.RTResult) []proto.Issue {
+	if r.Err != nil {
+		return []proto.Issue{{Key: "request-failed", Detail: r.Err.Error()}}
+	}
+	rtts := r.Res.E2eProbe.RTTs
+	if len(rtts) != it.Scn.E2e {
+		return []proto.Issue{{Key: "sample-count", Detail: fmt.Sprint(rtts)}}
+	}
+	// does the reply the target gives to the probe with TTL = MaxTTL prove arrival for this protocol?
+	proves := false
+	switch it.Note["world"] {
+	case "destination-answers":
+		proves = true
+	case "time-exceeded-from-the-target-address":
+		proves = it.Scn.Protocol == "udp" // any matched ICMP error from the target proves arrival for UDP only
+	}
+	want := float64(proto.DefaultDelayUs(it.Scn.MaxTTL)) / 1000
+	var out []proto.Issue
+	for i, v := range rtts {
+		switch {
+		case !proves && v != 0:
+			out = append(out, proto.Issue{Key: "rtt-although-the-destination-did-not-answer", Detail: fmt.Sprintf("sample %d = %.3f ms, world: %s", i, v, it.Note["world"])})
+		case proves && (v < want-0.05 || v > want+0.5):
+			out = append(out, proto.Issue{Key: "rtt-is-not-the-destination-reply's", Detail: fmt.Sprintf("sample %d = %.3f ms, the destination's reply took %.3f ms", i, v, want)})
+		}
+	}
+	return out
+}, Bound: func(string) int { return 0 }}
+
 func init() {
+	F.ExtraCount = E2E.Count
+	F.ExtraRun = E2E.Run
+	F.ExtraReplay = func(scn json.RawMessage, choices []int) (string, bool, bool) {
+		var w struct {
+			RT json.RawMessage `json:"rt"`
+		}
+		if json.Unmarshal(scn, &w); w.RT == nil {
+			return "", false, false
+		}
+		s, ok := E2E.Replay(scn, choices)
+		return s, ok, true
+	}
 	F.Register("model_checking",
 		"item = (variant, timeout/send-delay configuration, assignment of a delay from the alphabet to each of 3 router hops and the destination (all |A|^4 assignments, non-monotone and overtaking included) | a duplicate of each reply with a strictly larger delay); "+
 			"executed on the virtual clock; oracle: reported RTT = (arrival of the first genuine reply for that TTL from that address) - (instant the TTL's probe was handed to the sink), within the read cost, never negative, never measured against another probe's send time; distinct = distinct hop lists",
